@@ -7,6 +7,8 @@ import CookModel.Lemmas.TableFacts
 import CookModel.Lemmas.TableSearch
 import CookModel.Analysis.RefCheck
 import CookModel.Analysis.MetaValidator
+import CookModel.Lemmas.LexLaws
+import CookModel.Lemmas.MetaFrontDiags
 /-
   C18  Parsing is deterministic, stateless across calls and thread-safe.
 
@@ -579,6 +581,78 @@ theorem C18_instances_independent_options (p : Process α) (h : List (Nat × Req
     ((p.runO h).serveO k r).2 = ((⟨[e], false⟩ : Process α).serveO 0 r).2 ∧
     ((p.runO h).serveO k r).2 = some (fullReplyO e.1 e.2 r) := by
   simp [Process.serveO, Process.runO_parsers, hk]
+/-! non-vacuity and the seeded scenario C18-14 on model output (values first obtained with `#eval`): a history with a
+    parse that ends in a parser-stage error and no output (`a ~{}` — a timer with neither name nor quantity), then a
+    `parse_with_options` WITHOUT a reference check, then a `parse_metadata`; afterwards `add @@pesto{}` with a callback
+    that rejects `pesto`. -/
+private def C18_w12Env : Env := ⟨toyCharSpec, ⟨Gen.EXT_COMPONENT_MODIFIERS⟩, fun _ => none, fun _ _ => .ok, fun c => [c], 0⟩
+private def C18_w12Chk : Str → FM.CheckRes := fun n => if n = "pesto".toList then .error else .ok
+private def C18_w12Bad : Str := "a ~{}\n".toList
+private def C18_w12Doc : Str := "add @@pesto{}\n".toList
+private def C18_w12Hist : List ReqO :=
+  [.parse C18_w12Bad, .parseOpts (.refCheck none) "x".toList, .parseMeta "y".toList]
+/-- a result as text: every diagnostic as `kind/stage/severity/labels`, then whether there is output -/
+private def C18_w12Show (r : AnalysisResult Rat) : List String × Bool :=
+  (r.diags.toList.map (fun d => d.kind ++ (if d.stage == .parse then "/parse" else "/analysis") ++
+      (if d.sev == .error then "/error" else "/other") ++
+      String.join (d.labels.map (fun l => s!"/{l.start}..{l.stop}"))),
+   r.output.isSome)
+
+private theorem C18_w12_fmBad : parseFrontmatter toyCharSpec C18_w12Bad = none := by decide
+private theorem C18_w12_fmDoc : parseFrontmatter toyCharSpec C18_w12Doc = none := by decide
+private theorem C18_w12_lexBad : lex toyCharSpec C18_w12Bad = lexFuel toyCharSpec 6 0 C18_w12Bad :=
+  lexFrom_eq_fuel _ _ _ _ (by decide)
+private theorem C18_w12_lexDoc : lex toyCharSpec C18_w12Doc = lexFuel toyCharSpec 14 0 C18_w12Doc :=
+  lexFrom_eq_fuel _ _ _ _ (by decide)
+
+/-- the first request of the history fails in the parser: one parser-stage error, no output -/
+example : C18_w12Show (parseRecipe C18_w12Env C18_w12Bad) =
+    (["timer-neither-name-nor-quantity/parse/error/3..5"], false) := by
+  unfold parseRecipe pullEvents
+  simp only [C18_w12Env, C18_w12_fmBad, C18_w12_lexBad]
+  decide +kernel
+/-- after that history the reference `@@pesto{}` still gets the callback's error (analysis stage, the span of the
+    component), and the recipe is produced; a plain `parse` of the same document reports nothing -/
+example : C18_w12Show ((Instance.runReqsO (α := Rat) ⟨C18_w12Env, false⟩ C18_w12Hist).serveO (α := Rat)
+      (.parseOpts (.refCheck (some C18_w12Chk)) C18_w12Doc)).2 =
+    (["recipe-not-found/analysis/error/4..13"], true) ∧
+    C18_w12Show ((Instance.runReqsO (α := Rat) ⟨C18_w12Env, false⟩ C18_w12Hist).serveO (α := Rat)
+      (.parse C18_w12Doc)).2 = ([], true) := by
+  simp only [Instance.serveO, Instance.runReqsO_env, OptsO.reply]
+  unfold RC.parseRecipeR parseRecipe pullEvents
+  simp only [C18_w12Env, C18_w12_fmDoc, C18_w12_lexDoc]
+  decide +kernel
+/-- the same on a process, asked through the second of two parsers -/
+example : (((⟨[(C18_w7Env, C18_w7FeOk), (C18_w12Env, C18_w7FeErr)], false⟩ : Process Rat).runO
+      (C18_w12Hist.map (fun q => (1, q)))).serveO 1
+      (.parseOpts (.refCheck (some C18_w12Chk)) C18_w12Doc)).2.map (fun f => C18_w12Show f.result) =
+    some (["recipe-not-found/analysis/error/4..13"], true) := by
+  simp only [Process.serveO, Process.runO_parsers, fullReplyO, fullReplyOf, OptsO.reply, List.getElem?_cons_succ,
+    List.getElem?_cons_zero, Option.map_some]
+  unfold RC.parseRecipeR pullEvents
+  simp only [C18_w12Env, C18_w12_fmDoc, C18_w12_lexDoc]
+  decide +kernel
+
+/-- **The reference check of a `parse_with_options` is consulted whatever happened before** (seeded C18-14: dropped
+    after a parse that ended in a parser error).  For every history `h` — in particular one that contains a `parse`
+    of an input `bad` whose report has a parser-stage error and which produced no recipe — the reply to
+    `parse_with_options(x, recipe_ref_check = chk)` is `RC.parseRecipeR env (some chk) x`, the analysis that calls `chk`
+    on every recipe reference it stores (`RC.afterIngredient`); so it differs from the reply without a check exactly
+    where `chk` says so.  Concretely (second part): with the toy character classes and component modifiers on, after
+    the history `a ~{}` (parser error, no output) / options without check / `parse_metadata`, the document
+    `add @@pesto{}` checked by a callback rejecting `pesto` has exactly the diagnostic `recipe-not-found`, an
+    analysis-stage error on the span 4..13 of the component, while a plain `parse` of it has none.
+    PARTIAL in one respect, hence not claimed here: a general "the report contains `chk`'s verdict for every recipe
+    reference of the input" needs a lemma about `RC.loopR` that Lemmas/RefCheck.lean does not have (it has the
+    one-event facts `rck_afterIngredient`, `rck_refDiag_iff`); see notes/audit-C18.md. -/
+theorem C18_ref_check_consulted_after_failed_parse (i : Instance) (h : List ReqO) (bad : Str)
+    (chk : Str → FM.CheckRes) (x : Str) :
+    ((Instance.runReqsO (α := α) i (.parse bad :: h)).serveO (α := α) (.parseOpts (.refCheck (some chk)) x)).2 =
+      RC.parseRecipeR i.env (some chk) x ∧
+    ((Instance.runReqsO (α := α) i (h ++ [.parse bad])).serveO (α := α) (.parseOpts (.refCheck (some chk)) x)).2 =
+      RC.parseRecipeR i.env (some chk) x := by
+  simp [Instance.serveO, Instance.runReqsO_env, OptsO.reply]
+
 -- ===== end w12c18opts =====
 
 end Cook
